@@ -98,6 +98,13 @@ GROUPS = {
  "none": [None, type(None), Literal[None]],
  "lit_a_none": [Literal["a", None], Optional[Literal["a"]], Union[Literal["a"], None], Union[None, Literal["a"]]],
  "lit_a_int": [Union[Literal["a"], int], Union[int, Literal["a"]]],
+ "lit_ab_none": [Literal["a", "b", None], Optional[Literal["a", "b"]], Union[Literal["a", None], Literal["b"]], Union[Literal["a"], Literal["b"], None],
+                 Union[Literal["b"], Literal[None, "a"]]],
+ "lit_01_none": [Literal[0, 1, None], Optional[Literal[0, 1]], Union[Literal[0, None], Literal[1]], Union[None, Literal[1, 0]]],
+ "lit_1_none": [Literal[1, None], Optional[Literal[1]]],
+ "lit_0_none": [Literal[0, None], Optional[Literal[0]], Union[Literal[0], None]],
+ "lit_F_none": [Literal[False, None], Optional[Literal[False]]],
+ "lit_empty_none": [Literal["", None], Optional[Literal[""]]],
  "list_bare": [list, List, List[Any], list[Any]],
  "dict_bare": [dict, Dict, Dict[Any, Any], dict[Any, Any]],
  "tuple_bare": [tuple, Tuple, Tuple[Any, ...], tuple[Any, ...]],
@@ -221,12 +228,12 @@ def chk_lit_full_pool(sa, sb, sc, sd):
 ''', timeout=300, family="literal kernel (labelled enumeration of the whole 8-value pool)", bounds="8**3 + 8**4 combinations, native")
     mf = Module("c15_family").pre(SETUP).pre(FAMILY_SETUP)
     mf.nat("congruence", NAT_CODE, timeout=120, family="rewrite congruence (labelled enumeration)",
-           bounds="33 groups of equivalent spellings (union reorder/nest/duplicate/|, Optional, aliases vs builtin generics, bare generics, "
+           bounds="39 groups of equivalent spellings (union reorder/nest/duplicate/|, Optional, aliases vs builtin generics, bare generics, "
                   "literal merge/split, Literal[None]); equal+hash-equal+idempotent inside a group, unequal across groups")
     mb = Module("c15_behaviour").pre(SETUP).pre(FAMILY_SETUP).pre(BEHAV_SETUP)
     mb.ob("builds", "x: int", "return not BUILD_ERRORS", timeout=20, family="behavioural equivalence", bounds="loader creation for every spelling")
     groups = ["opt_int", "int_str", "int_str_none", "list_int", "list_str", "dict_str_int", "tuple_var_int", "tuple_int_str", "seq_int",
-              "lit01", "litFT", "lit0", "lit0F", "lit1T", "none", "lit_a_none", "lit_a_int", "list_bare", "dict_bare", "tuple_bare",
+              "lit01", "litFT", "lit0", "lit0F", "lit1T", "none", "lit_a_none", "lit_a_int", "lit_ab_none", "lit_01_none", "lit_1_none", "lit_0_none", "lit_F_none", "lit_empty_none", "list_bare", "dict_bare", "tuple_bare",
               "int", "list_opt_int", "opt_list_int", "dict_str_list"]
     for g in groups:
         mb.ob(f"behav_{g}", "kind: int, d: Atom, e: Atom", f"return behav({g!r}, kind, d, e)",
@@ -236,5 +243,5 @@ def chk_lit_full_pool(sa, sb, sc, sd):
               bounds="datum: atom None|bool|int in [-2,3]|str in ('', '1', 'a', 'k'), bare or in list/dict/tuple wrappers (7 shapes), strict and lax")
     return Plan("C15", [m, mf, mb],
                 assumptions=["groups of equivalent spellings are equivalent by construction (typing semantics)"],
-                bounds={"literal pool": str(k), "rewrite family": "33 groups"},
+                bounds={"literal pool": str(k), "rewrite family": "39 groups"},
                 outside=["type terms outside the family grammar", "predicates built from the hints (covered under C10)"])
